@@ -151,12 +151,13 @@ def run_batch(seed, batch, tier):
                 b.evaluation()
                 monitors.OBS.failures = []
                 # Pandas and Polars: hooks observe every executed project/window step
-                for be_name in ("pandas", "polars", "polars-lazy"):
+                for be_name in ("pandas", "polars", "polars-lazy", "polars-eager-model"):
                     try:
                         if be_name == "pandas":
                             res = backends.run_pandas(ops, frames)
                         else:
-                            res = backends.run_polars(ops, frames, lazy=be_name.endswith("lazy"))
+                            res = backends.run_polars(ops, frames, lazy=be_name.endswith("lazy"),
+                                                      eager_model=be_name.endswith("eager-model"))
                         b.count("executor_runs", be_name)
                     except Exception as ex:
                         b.count("raised", be_name + ":" + type(ex).__name__)
@@ -240,7 +241,7 @@ def replay(v):
         if be == "pandas":
             backends.run_pandas(ops, frames)
         elif be.startswith("polars"):
-            backends.run_polars(ops, frames, lazy=be.endswith("lazy"))
+            backends.run_polars(ops, frames, lazy=be.endswith("lazy"), eager_model=be.endswith("eager-model"))
         else:
             eng = backends.Sqlite() if be == "sqlite" else backends.PgSurrogate()
             if ops.node_name in ("ProjectNode", "ExtendNode"):
